@@ -4,6 +4,7 @@
 import copy
 import functools
 import json
+import os
 import pickle
 
 from sismic.interpreter import Interpreter
@@ -14,6 +15,37 @@ import realize
 from probes import Probes, Listener, Mon, META_NAMES, ev_id
 
 FATAL = ('PreconditionError', 'PostconditionError', 'InvariantError', 'PropertyStatechartError')
+
+
+class Hang(BaseException):
+    """A public call did not return within CALL_LIMIT seconds (observed as the outcome 'Hang')."""
+
+
+CALL_LIMIT = float(os.environ.get('VERIF_CALL_LIMIT', '20'))
+
+
+def _alarm(signum, frame):
+    raise Hang()
+
+
+class watchdog:
+    """Bounds one call into the code under test (main thread of the process only; a no-op elsewhere)."""
+
+    def __enter__(self):
+        import signal
+        import threading
+        self.on = threading.current_thread() is threading.main_thread()
+        if self.on:
+            self.old = signal.signal(signal.SIGALRM, _alarm)
+            signal.setitimer(signal.ITIMER_REAL, CALL_LIMIT)
+        return self
+
+    def __exit__(self, *a):
+        if self.on:
+            import signal
+            signal.setitimer(signal.ITIMER_REAL, 0)
+            signal.signal(signal.SIGALRM, self.old)
+        return False
 
 
 class Run:
@@ -77,13 +109,14 @@ class Run:
     def disturb(self):
         sh = self.shadow
         try:
+          with watchdog():
             sh.interp.clock.time += 3
             sh.probes.arm([True] * len(self.c['trans']), 0)
             for e in self.c['events'][:3]:
                 sh.interp.queue(Event(realize.ev_name(e)))
             for _ in range(2):
                 sh.interp.execute_once()
-        except Exception:
+        except (Exception, Hang):
             pass
 
     # ---- projection
@@ -175,6 +208,7 @@ class Run:
         if self.listener2 is not None:
             self.listener2.seen = []
         try:
+          with watchdog():
             if op == 'queue':
                 kw = {}
                 if o['dl'] or h.get('xd', (o['ev'] + o['par'] + len(self.returned)) % 2 == 0):
@@ -213,6 +247,8 @@ class Run:
                 o['rtime'] = res[-1].time if res else it.time
             else:
                 raise ValueError(op)
+        except Hang:
+            o['exc'] = 'Hang'
         except sx.ContractError as e:
             o['exc'] = type(e).__name__
             o['eobj'] = self.owner_of(e.obj)
